@@ -25,6 +25,9 @@ type Rewrite struct {
 	Rel      string     `json:"r,omitempty"`
 	Tupleset string     `json:"ts,omitempty"`
 	Kids     []*Rewrite `json:"c,omitempty"`
+	// Mixed (fault injection only): the renderer writes the LAST separator of this operator with the
+	// word of operator kind Mixed, producing different operators at one nesting level.
+	Mixed string `json:"mixed,omitempty"`
 }
 
 type Restriction struct {
@@ -74,7 +77,7 @@ func (r *Rewrite) Clone() *Rewrite {
 	if r == nil {
 		return nil
 	}
-	c := &Rewrite{Kind: r.Kind, Rel: r.Rel, Tupleset: r.Tupleset}
+	c := &Rewrite{Kind: r.Kind, Rel: r.Rel, Tupleset: r.Tupleset, Mixed: r.Mixed}
 	for _, k := range r.Kids {
 		c.Kids = append(c.Kids, k.Clone())
 	}
@@ -209,7 +212,7 @@ func (m *Model) String() string {
 }
 
 func (p Param) TypeString() string {
-	if p.Type == "list" || p.Type == "map" {
+	if (p.Type == "list" || p.Type == "map") && p.Elem != "" {
 		return p.Type + "<" + p.Elem + ">"
 	}
 	return p.Type
